@@ -74,7 +74,7 @@ Record tshared := TSh { tclock : Z; tflags : list nat }.   (* tflags: labels who
 
 Record tconfig := TConfig { t_sh : tshared; t_ths : list tthread; t_log : list (nat * Z * tev) }.
 
-Inductive tmove := TMStep (tid : nat) | TMTick (d : nat).
+Inductive tmove := TMStep (tid : nat) | TMTick (d : N).   (* N: a step of the clock may be days in microseconds *)
 
 Fixpoint tmem (a : nat) (l : list nat) : bool :=
   match l with [] => false | b :: t => Nat.eqb a b || tmem a t end.
@@ -141,8 +141,8 @@ Definition ttstep (c : tconfig) (tid : nat) : tconfig :=
       end
   end.
 
-Definition ttick (c : tconfig) (d : nat) : tconfig :=
-  TConfig (TSh (tclock (t_sh c) + Z.of_nat d) (tflags (t_sh c))) (t_ths c) (t_log c).
+Definition ttick (c : tconfig) (d : N) : tconfig :=
+  TConfig (TSh (tclock (t_sh c) + Z.of_N d) (tflags (t_sh c))) (t_ths c) (t_log c).
 
 Definition tmstep (c : tconfig) (m : tmove) : tconfig :=
   match m with TMStep tid => ttstep c tid | TMTick d => ttick c d end.
